@@ -29,6 +29,29 @@ CHECKS = {
          "SHA-256 collision freedom; unspecified boundary cases listed in DESIGN.md.", "exhaustive input enumeration", "DESIGN.md §4 C20"),
 }
 
+CHECKS.update({
+ "C02": (EX, "Two exhaustive enumerations on the real code: (1) every file size 1..4c+1 for six chunk sizes x 64 consecutive challenge seeds x 3 prove/re-challenge rounds through PostFile/PostProof (tree cross-checked with the repository's BuildTree); (2) proof window x check window x every file start phase x every join height x every placement vector of one proof per window, advanced block by block through the whole application's BeginBlocker; prover must stay listed and unburned.",
+         "Windows I<=4 quick / <=5 thorough; 3-4 windows; periodicity argument for start phases.", "exhaustive enumeration of challenge seeds and proof-placement schedules", "DESIGN.md §4 C02"),
+ "C04": (EX, "Full product of plan states x price feeds x ratio parameters x sizes x durations x referral kinds x recipient x payer balance (about 1e5 purchases) plus pay-once posts, each on a fresh branch; all balances and total supply snapshotted before/after and every clause of the statement checked; representative cases re-run through signed ABCI blocks.",
+         "The chain's own price functions on the pre-state are the reference for 'the price the chain computes'.", "exhaustive input enumeration with full-balance-sheet oracle", "DESIGN.md §4 C04"),
+ "C05": (MC, "BFS over boundary-valued messages of the storage and oracle modules and block boundaries with extreme time steps; after every accepted transaction three further blocks are processed on a fork; the whole application's BeginBlocker/EndBlocker must not panic (differential against the same blocks without messages); panics are reproduced through real BeginBlock at the ABCI seam.",
+         "Value alphabets listed in evidence; one idle genesis validator.", "explicit-state model checking with look-ahead and differential oracle", "DESIGN.md §4 C05"),
+ "C06": (MC, "For every history of a bounded history set, the real ABCI pipeline is executed on a fresh node once per choice vector (<=1 quick / <=2 thorough deviations) of the instrumented nondeterminism seams - every permutation of every map iteration reached, two wall-clock bases, two RNG seeds - and the observation logs (AppHash per block, tx code/gas/events/data, block events) must be identical. The instrumentation is regenerated from the current tree on every run (go build -overlay), so a new map range or clock read becomes a choice point automatically.",
+         "Sources of nondeterminism = the seamgen inventory over x/, app/, wasmbinding/, types/; SDK/Tendermint/wasmvm internals assumed deterministic; two-process un-instrumented run is a secondary net only.", "stateless exploration of nondeterministic choices (controlled map order / clock / RNG) on the real ABCI pipeline", "DESIGN.md §4 C06"),
+ "C07": (MC, "BFS over buy/upgrade, plan-paid and pay-once posts (incl. the same key twice in a block), deletes by owner and non-owner, a prover joining, one-day blocks (reward blocks drop prover-less files) and a 31-day block (expiry); every transition: delta(SpaceUsed) = delta(footprint of the account's live plan-paid files), bounds, free-space query, refused posts.",
+         "2 accounts, <=4 posts, <=6 blocks per history.", "explicit-state model checking of the real handlers", "DESIGN.md §4 C07"),
+ "C11": (MC, "All 45 registered message types (cross-checked with the Msg service descriptors): every assignment of distinct addresses to their string fields gives GetSigners=[creator] and a routable handler; three signed transactions per type through the real ante handler (other field's key, creator+extra, creator); BFS over owner-only messages replayed by a non-owner with every record of the owner compared byte for byte; wasm binding post in own/foreign name.",
+         "Records of O = keys/values containing O's address and the feed it created.", "exhaustive enumeration of message types x field assignments + explicit-state search", "DESIGN.md §4 C11"),
+ "C12": (EX, "Gauge amounts x denominations x durations x concurrent gauges x every weakly increasing sequence of reward-block times from a 9-point alphabet through the storage BeginBlocker, and gauges created by real BuyStorage transactions (incl. two identical purchases in one block) through the whole application at both seams; cumulative release vs exact integer pro-rata, monotonicity, cap, nothing outside the interval, conservation into the reward pool.",
+         "Rounding direction of a fractional microsecond unspecified; remainder after end unspecified.", "exhaustive enumeration of reward-time schedules", "DESIGN.md §4 C12"),
+ "C14": (MC, "For six (form size, minimum) settings: BFS over form requests, Attest and Report by eligible, same-domain, proof-less, unregistered and self signers incl. repeats and never-requested forms, at several heights; reference = set of distinct named signers; ineffective signatures must leave the store byte-identical and forms must name only registered proof holders other than the prover.",
+         "7 signers, one file.", "explicit-state model checking against a reference model", "DESIGN.md §4 C14"),
+ "C17": (MC, "BFS over post/delete/proof/attest/report/shutdown/reward blocks; the index and prover-list invariant is evaluated in every reached state through raw store iteration and through the gRPC queries.",
+         "<=4 posts, <=6 blocks per history.", "explicit-state model checking of a state invariant", "DESIGN.md §4 C17"),
+ "C19": (MC, "BFS over one event per record kind of the six modules in every prerequisite-respecting order; in every reached state each module is exported, JSON round-tripped, validated, imported into a fresh node and compared record kind by record kind, and re-exported; selected histories are committed at the ABCI seam, exported with ExportAppStateAndValidators and imported by InitChain on a fresh node. Five record kinds without a genesis field are listed as known findings; any other loss is a violation.",
+         "Superset after import allowed; violations keyed by (store, record-kind prefix).", "explicit-state model checking with export/import round trip in every state", "DESIGN.md §4 C19"),
+})
+
 REASON_PENDING = "check under construction in this round (DESIGN.md §7 build order); will be claimed once its scenario is committed"
 
 props = [json.loads(l) for l in open('/verif/properties.jsonl')]
